@@ -42,6 +42,10 @@ def run(ck, ctx):
                       "passed in, on every path - no stored/memoised digest (a remote overwrite or tombstone of an existing key changes "
                       "neither a local write counter nor the key count, so a cached digest keeps saying 'in sync'), and no digest field "
                       "kept inside the manager")
+    ck.rule("R18.11", "what a sync delivers is merged: on the receiving node (SimulatedNode::apply_remote_deltas, the function run_anti_entropy_sync "
+                      "hands each side's selection to) every iteration over the delivered batch passes ShardReplicaState::apply_remote_delta - no "
+                      "delta is skipped by origin, stamp or kind before the merge (a node that lost what it once stamped must take it back from "
+                      "its peer, or the buckets stay divergent in every round) - and the loop walks the whole batch")
     for cfg in ctx.configs:
         prog = ctx.prog(cfg)
         ck.configs.append(cfg)
@@ -51,6 +55,7 @@ def run(ck, ctx):
         _c06._r063(_Alias(ck, "R06.3", "R18.9"), prog, cfg)
         _rules(ck, prog, cfg)
         _r1810(ck, prog, cfg)
+        _r1811(ck, prog, cfg)
 
 
 def _rules(ck, prog, cfg):
@@ -408,3 +413,28 @@ def _r1810(ck, prog, cfg):
         ck.check(not kept, "R18.10", "manager-keeps-no-digest" + _tag(cfg),
                  "AntiEntropyManager stores a digest (%s): a digest kept across calls describes an earlier state" % kept, None,
                  detail="no StateDigest/MerkleNode field")
+
+
+def _r1811(ck, prog, cfg):
+    fs = [f for f in prog.lib_fns() if f.id == "simulator::multi_node::SimulatedNode::apply_remote_deltas"]
+    if not fs:
+        ck.anchor_lost("R18.11", "SimulatedNode::apply_remote_deltas not found")
+        return
+    f = fs[0]
+    heads = lib2.loop_heads(f)
+    sinks = {b for g in [f] for b, t in g.calls() if is_callee(t, r"ShardReplicaState::apply_remote_delta$")}
+    n = 0
+    for h in sorted(heads):
+        none_t, some_t, nb = heads[h]
+        # only the loop over the delivered batch (its iterator derives from the deltas parameter)
+        src = src_of_operand(f, f.term(nb)["args"][0], through_calls=TRANSPARENT + (r"IntoIterator>::into_iter$", r"Iterator>::by_ref$"))
+        if not (src.kind == "path" and src.local is not None and 1 <= src.local <= f.d["argc"]) and len(heads) > 1:
+            continue
+        n += 1
+        lib2.whole_batch(ck, f, h, "R18.11", "apply_remote_deltas:whole-batch" + _tag(cfg), "the delivered batch")
+        skip = lib2.iteration_skips(f, h, sinks)
+        ck.check(skip is None and bool(sinks), "R18.11", "apply_remote_deltas:every-delta-merged" + _tag(cfg),
+                 "an iteration over the delivered deltas can finish without calling ShardReplicaState::apply_remote_delta (path through blocks %s): "
+                 "a delta selected for a divergent bucket is dropped on arrival, so the receiver never holds the merge and the digests keep "
+                 "differing" % (skip[:6] if skip else "-"), f.where(), detail="apply_remote_delta on every iteration")
+    ck.floor("R18.11" + _tag(cfg), n, 1)
